@@ -183,11 +183,11 @@ func (gph *pkgGraph) coq() string {
 }
 
 type loadMismatch struct {
-	Kind     string            `json:"kind"`
+	Kind     string              `json:"kind"`
 	Graph    map[string][]string `json:"graph"`
-	Dirs     map[string]string `json:"dirs"`
-	Expected string            `json:"expected"`
-	Got      string            `json:"got"`
+	Dirs     map[string]string   `json:"dirs"`
+	Expected string              `json:"expected"`
+	Got      string              `json:"got"`
 }
 
 func loadMarkers(fs fstest.MapFS) (lines []string, err error, escaped any) {
